@@ -1,9 +1,123 @@
-//! Fidelity cross-check of C18 (thorough tier): recorded schedules replayed in a binary that
-//! links only the no-alloc build, with nom compiled without any feature.
+//! Fidelity cross-check of C18: recorded schedules are replayed in a binary that links only
+//! the no-alloc build, with nom compiled without any feature (in the simulator binary cargo
+//! unifies nom's features to std+alloc for all three builds). The outcome logs must be
+//! identical line by line; a difference means the in-process no-alloc node is not faithful to
+//! a real no-alloc build and is reported as a harness error, not as a verdict.
 
+use crate::json::{hex, J};
+use crate::nodes::{new_node, Build, Node};
+use crate::ops::Op;
 use crate::props::Prop;
+use crate::rng::run_seed;
 use crate::runner::{Args, EvidenceExtra};
+use std::io::Write;
 
-pub fn c18_fidelity(_args: &Args, _prop: &dyn Prop) -> (EvidenceExtra, Vec<(String, String)>) {
-    (EvidenceExtra { items: vec![] }, vec![])
+pub fn c18_fidelity(args: &Args, prop: &dyn Prop) -> (EvidenceExtra, Vec<(String, String)>) {
+    let exe = match std::env::var("AISSIM_NONEONLY") {
+        Ok(e) if std::path::Path::new(&e).exists() => e,
+        _ => {
+            return (
+                EvidenceExtra {
+                    items: vec![(
+                        "noalloc_only_binary_crosscheck".into(),
+                        J::obj().set("ran", J::Bool(false)).set("reason", J::str("none-only binary not built")),
+                    )],
+                },
+                vec![],
+            )
+        }
+    };
+    let count: u64 = if args.tier == "thorough" { 20_000 } else { 1_500 };
+    let mut script = String::new();
+    let mut expected: Vec<String> = Vec::new();
+    for i in 0..count {
+        let run = i * 3 + 1;
+        let sc = prop.generate(run_seed(args.seed, run), run);
+        let nn = sc.nodes.max(1);
+        script.push_str(&format!("N {}\n", nn));
+        let mut nodes: Vec<Box<dyn Node>> = (0..nn).map(|_| new_node(Build::None)).collect();
+        for op in &sc.ops {
+            match op {
+                Op::Line(l) => {
+                    let n = l.node.min(nn - 1);
+                    script.push_str(&format!("L {} {} {}\n", n, if l.decode { 1 } else { 0 }, hex(&l.bytes)));
+                    expected.push(nodes[n].parse_text(&l.bytes, l.decode));
+                }
+                Op::Restart { node } => {
+                    let n = (*node).min(nn - 1);
+                    script.push_str(&format!("R {}\n", n));
+                    nodes[n].restart();
+                }
+                _ => {}
+            }
+        }
+    }
+    let t0 = std::time::Instant::now();
+    let mut child = match std::process::Command::new(&exe)
+        .stdin(std::process::Stdio::piped())
+        .stdout(std::process::Stdio::piped())
+        .stderr(std::process::Stdio::null())
+        .spawn()
+    {
+        Ok(c) => c,
+        Err(e) => {
+            eprintln!("check: HARNESS ERROR: cannot run {}: {}", exe, e);
+            std::process::exit(2);
+        }
+    };
+    let mut stdin = child.stdin.take().unwrap();
+    let writer = std::thread::spawn(move || {
+        let _ = stdin.write_all(script.as_bytes());
+    });
+    let out = child.wait_with_output();
+    let _ = writer.join();
+    let out = match out {
+        Ok(o) => o,
+        Err(e) => {
+            eprintln!("check: HARNESS ERROR: none-only binary failed: {}", e);
+            std::process::exit(2);
+        }
+    };
+    let text = String::from_utf8_lossy(&out.stdout);
+    let got: Vec<&str> = text.lines().collect();
+    let mut mismatches = 0u64;
+    let mut first: Option<String> = None;
+    if got.len() != expected.len() {
+        mismatches += 1;
+        first = Some(format!("{} outcomes from the none-only binary, {} in-process", got.len(), expected.len()));
+    }
+    for (i, (g, e)) in got.iter().zip(expected.iter()).enumerate() {
+        if g != e {
+            mismatches += 1;
+            if first.is_none() {
+                first = Some(format!("line {}: none-only binary {:?} vs in-process {:?}", i, g, e));
+            }
+        }
+    }
+    if mismatches > 0 {
+        eprintln!(
+            "check: HARNESS ERROR: the in-process no-alloc node and the none-only binary (nom without features) disagree on {} outcome(s): {}",
+            mismatches,
+            first.unwrap_or_default()
+        );
+        std::process::exit(2);
+    }
+    (
+        EvidenceExtra {
+            items: vec![(
+                "noalloc_only_binary_crosscheck".into(),
+                J::obj()
+                    .set("ran", J::Bool(true))
+                    .set("schedules", J::Int(count as i64))
+                    .set("outcomes_compared", J::Int(expected.len() as i64))
+                    .set("mismatches", J::Int(0))
+                    .set("wall_s", J::Num((t0.elapsed().as_secs_f64() * 100.0).round() / 100.0))
+                    .set(
+                        "note",
+                        J::str("same delivered schedules replayed in a binary linking only the no-alloc build with nom built without features; outcomes (Debug of the sentence) identical line by line"),
+                    ),
+            )],
+        },
+        vec![],
+    )
 }
